@@ -37,8 +37,8 @@ Lemma cmp_add_branch : forall g s ends sk, g_cmp (fst (g_add_branch g s ends sk)
 Proof.
   intros. unfold g_add_branch, fail. destruct (g_err g); [reflexivity|].
   repeat (dif; [reflexivity|]).
-  assert (C1 : forall n : node, g_cmp (if nkind_eqb (n_kind n) NPass && negb (n_out n) then set_typed s g else g) = g_cmp g).
-  { intros n. dif; reflexivity. }
+  assert (C1 : forall n : node, g_cmp (if nkind_eqb (n_kind n) NPass && negb (n_out n) then update_pending (set_typed s g) else g) = g_cmp g).
+  { intros n. dif; [rewrite (ss_cmp _ _ (ss_update_pending _))|]; reflexivity. }
   destruct sk.
   - simpl. destruct (alist_get s (g_nodes g)); [apply C1|reflexivity].
   - match goal with |- context[branch_ends ?G s ends] =>
@@ -160,6 +160,27 @@ Proof.
   - rewrite (g_compile_sticky fixed _ o _ H). simpl. eexists; reflexivity.
 Qed.
 
+(* inference never touches the build error or the compiled flag *)
+Lemma resolve_pass_flags' : forall todo y,
+  g_err (fst (resolve_pass y todo)) = g_err y /\ g_compiled (fst (resolve_pass y todo)) = g_compiled y.
+Proof.
+  induction todo as [|[[a b] f] rest IH]; intros y; [simpl; auto|]. simpl.
+  dif.
+  - specialize (IH y). destruct (resolve_pass y rest); simpl in *. assumption.
+  - match goal with |- context[resolve_pass ?G rest] => destruct (IH G) as [A B]; rewrite A, B end.
+    destruct f; simpl; repeat dif; auto.
+Qed.
+
+Lemma update_pending_flags' : forall y,
+  g_err (update_pending y) = g_err y /\ g_compiled (update_pending y) = g_compiled y.
+Proof.
+  intros y. unfold update_pending. generalize (S (List.length (g_pending y))). intros n.
+  induction n as [|n IH]; simpl; [auto|].
+  destruct IH as [A B]. unfold resolve_once at 1 3.
+  pose proof (resolve_pass_flags' (g_pending (Nat.iter n resolve_once y)) (set_pending [] (Nat.iter n resolve_once y))) as P.
+  destruct (resolve_pass _ _) as [y' kept]; simpl in *. destruct P as [P1 P2]. split; congruence.
+Qed.
+
 (* ---- deferred AddBranch calls *)
 Definition dead (w : wstate) : Prop := g_err (w_g w) <> None.
 
@@ -190,7 +211,9 @@ Lemma add_branch_skip_keys : forall g s ends, keys (fst (g_add_branch g s ends t
 Proof.
   intros. unfold g_add_branch, fail. destruct (g_err g); [reflexivity|].
   repeat (dif; [reflexivity|]). simpl.
-  destruct (alist_get s (g_nodes g)); [dif; [apply (ss_keys _ _ (ss_set_typed s g))|reflexivity]|reflexivity].
+  destruct (alist_get s (g_nodes g)); [dif; [|reflexivity]|reflexivity].
+  change (keys (update_pending (set_typed s g)) = keys g).
+  rewrite (ss_keys _ _ (ss_update_pending _)). apply (ss_keys _ _ (ss_set_typed s g)).
 Qed.
 
 Lemma add_branch_skip_compiled : forall g s ends, g_compiled (fst (g_add_branch g s ends true)) = g_compiled g.
@@ -198,7 +221,8 @@ Proof.
   intros. unfold g_add_branch, fail. destruct (g_err g); [reflexivity|].
   destruct (g_compiled g) eqn:C; [simpl; assumption|].
   repeat (dif; [simpl; assumption|]). simpl.
-  destruct (alist_get s (g_nodes g)); [dif; simpl; assumption|simpl; assumption].
+  destruct (alist_get s (g_nodes g)); [dif; simpl; [|assumption]|simpl; assumption].
+  destruct (update_pending_flags' (set_typed s g)) as [_ X]. rewrite X. simpl. assumption.
 Qed.
 
 Lemma has_node_of_keys : forall g g' k, keys g' = keys g -> has_node g' k = has_node g k.
